@@ -196,14 +196,7 @@ func (e c12CaseEnv) cue(dir string, stdin []byte, args ...string) c12Res {
 	return e.env.cueVia(e.sub, dir, stdin, args...)
 }
 
-// c12MinInt64: representable in TOML, so the ordinary round trip is demanded of it; a failure
-// of such a case is reported under the class of the known defect
-const c12MinInt64 = "toml-min-int64-as-string"
-
 func (rn *c12Runner) fail(k *c12Case, class, what string, extra map[string]any) {
-	if k.feature == c12MinInt64 && (class == "wrong-encoding" || class == "roundtrip-toml") {
-		class = c12MinInt64
-	}
 	rp := k.describe()
 	for a, b := range extra {
 		rp[a] = b
@@ -321,7 +314,7 @@ func (rn *c12Runner) run(k *c12Case) {
 	} else {
 		data = ex.stdout
 	}
-	if k.feature != "" && k.feature != c12MinInt64 {
+	if k.feature != "" {
 		// the target format cannot represent the value: an error, never a silent change
 		if ex.code == 0 {
 			rn.fail(k, k.feature, "cue "+strings.Join(args, " ")+" exits 0 although "+k.enc+" cannot represent the value ("+k.feature+")",
